@@ -9,20 +9,21 @@ import (
 // Profile tunes the script generator for one property: which operations are
 // frequent, how many connections/steps, which modules.
 type Profile struct {
-	Name     string
-	Setup    int // up to this many state-building steps after the initial joins
-	MinSteps int
-	MaxSteps int
-	MaxConns int
-	Modules  []string // nil = any subset
-	W        map[Op]int
-	JoinBias int  // percentage of connections that start with a join
-	BigBody  int  // percentage of custom messages with a body near/over the limit
-	NilSub   bool // generate requests with absent optional sub-messages
-	Latency  bool // allow accepted signed-latency runs
-	Receipts bool
-	Hostile  bool // non-finite / huge coordinates, idle timeouts
-	IdleMs   []int
+	Name       string
+	Setup      int // up to this many state-building steps after the initial joins
+	MinSteps   int
+	MaxSteps   int
+	MaxConns   int
+	Modules    []string // nil = any subset
+	W          map[Op]int
+	JoinBias   int  // percentage of connections that start with a join
+	BigBody    int  // percentage of custom messages with a body near/over the limit
+	NilSub     bool // generate requests with absent optional sub-messages
+	Latency    bool // allow accepted signed-latency runs
+	Receipts   bool
+	FewTargets bool // concentrate entity references on the first two live entities
+	Hostile    bool // non-finite / huge coordinates, idle timeouts
+	IdleMs     []int
 }
 
 var baseWeights = map[Op]int{
@@ -118,6 +119,14 @@ func weighted(t *rapid.T, label string, kinds []string, w []int) string {
 	return kinds[len(kinds)-1]
 }
 
+func (p Profile) entRef(t *rapid.T) Ref {
+	r := genEntRef(t)
+	if p.FewTargets && uni(t, "few", 4) != 0 {
+		r = Ref{Kind: pick(t, "few_kind", []string{EntAlive, EntAlive, EntMine}), N: uni(t, "few_n", 2)}
+	}
+	return r
+}
+
 func genEntRef(t *rapid.T) Ref {
 	k := weighted(t, "ent_kind", []string{EntAlive, EntMine, EntForeign, EntEver, EntZero, EntNever}, []int{40, 25, 15, 8, 4, 8})
 	return Ref{Kind: k, N: uni(t, "ent_n", 8)}
@@ -190,7 +199,7 @@ func (p Profile) genStep(t *rapid.T, conns int, table []Op) Step {
 		st.Typ = genTypRef(t)
 	case OpCompAdd, OpCompUpdate:
 		st.Typ = genTypRef(t)
-		st.Ent = genEntRef(t)
+		st.Ent = p.entRef(t)
 		st.Data = genData(t)
 		if uni(t, "comp_big", 16) == 0 {
 			st.BigLen = pick(t, "comp_biglen", []int{10240, 10241, 20000, 70000})
@@ -214,7 +223,7 @@ func (p Profile) genStep(t *rapid.T, conns int, table []Op) Step {
 			}
 		}
 	case OpAction:
-		st.Ent = genEntRef(t)
+		st.Ent = p.entRef(t)
 		st.Name = pick(t, "aname", []string{"", "x", "x", "x", "x", "y", "z", " x", "x "})
 		st.TSec = pick(t, "tsec", []int64{0, 1, 5, 5, 5, 7, 10, 253402300799, -1})
 		st.TNano = pick(t, "tnano", []int32{0, 0, 1, 999999999})
@@ -226,7 +235,7 @@ func (p Profile) genStep(t *rapid.T, conns int, table []Op) Step {
 			st.NoSub = true
 		}
 	case OpAsset:
-		st.Ent = genEntRef(t)
+		st.Ent = p.entRef(t)
 		st.Name = pick(t, "asset", []string{"", "asset-a", "asset-a", "asset-b", " ", "asset-a "})
 	case OpQuad:
 		st.F = genDagazF(t, 6*(1+uni(t, "nquads", 3)), true)
